@@ -1,6 +1,6 @@
 //! Directed (corpus) scenarios: the minimal histories behind recorded findings and boundary cases that random walks
 //! do not reach (amounts at the u64 boundary, a misbehaving swap program).  Run first by the checks that own them.
-use crate::fam_rd::{bootstrap, G};
+use crate::fam_rd::{bootstrap_with, G};
 use crate::ixb::{Leaf, RdSetting};
 use crate::keys::{b, K};
 use crate::rng::Rng;
@@ -22,8 +22,9 @@ async fn open_epoch(s: &mut Sim, g: &mut G) -> u64 {
 }
 
 async fn run(mut s: Sim, mut rng: Rng, _len: usize) -> Sim {
-    let which = ((s.n >> 32) - 1) % 4;   // history id: consecutive histories run the four scripts
-    let mut g = bootstrap(&mut s, &mut rng).await;
+    let which = ((s.n >> 32) - 1) % 12;   // history id: consecutive histories run the scripts in turn
+    if which >= 7 { return unconfigured(s, rng, which).await; }
+    let mut g = bootstrap_with(&mut s, &mut rng, None).await;
     // make the configuration deterministic where the scripts depend on it
     for st in [RdSetting::DebtAccountant(g.debt_acc.clone()), RdSetting::RewardsAccountant(g.rew_acc.clone()), RdSetting::ContributorManager(g.cmgr.clone()),
                RdSetting::SwapProgram(K::SwapMock), RdSetting::FeeParams(500, 0, 100, 0, 1), RdSetting::CalcGrace(1), RdSetting::InitGrace(1),
@@ -86,7 +87,85 @@ async fn run(mut s: Sim, mut rng: Rng, _len: usize) -> Sim {
             let e2 = g.eps.len() as u64 - 1;
             let _ = e2;
         }
-        _ => { // C05: malformed replies (no return data, wrong length, wrong SOL amount, honest amount)
+        4 => { // C05 / C10: a distribution swept while one leaf is still unsettled (the pool is covered by another epoch's payment); afterwards
+               // its uncollectible debt must not change: write-off into the swept epoch refused, into the later epoch allowed
+            let e0 = open_epoch(&mut s, &mut g).await;
+            let e1 = open_epoch(&mut s, &mut g).await;
+            let (a, bq, c) = (700_000u64, 300_000u64, 500_000u64);
+            let t0 = s.def_tree(0, vec![Leaf::Debt { node: g.nodes[0].clone(), amount: a }, Leaf::Debt { node: g.nodes[6].clone(), amount: bq }]);
+            let t1 = s.def_tree(0, vec![Leaf::Debt { node: g.nodes[1].clone(), amount: c }]);
+            for (e, t, total) in [(e0, &t0, a + bq), (e1, &t1, c)] {
+                let ix = s.rd_configure_debt(&g.debt_acc, e, t.leaves.len() as u32, total, t.root); s.op(tx(vec![ix])).await;
+                let ix = s.rd_finalize_debt(&g.debt_acc, e, &g.payer); s.op(tx(vec![ix])).await;
+                let ix = s.rd_enable_write_off(e, &g.payer); s.op(tx(vec![ix])).await;
+            }
+            for (e, t, idx, node, amt) in [(e0, &t0, 0u32, g.nodes[0].clone(), a), (e1, &t1, 0u32, g.nodes[1].clone(), c)] {
+                s.op(Op::Airdrop(K::RdDeposit(b(&node)), amt)).await;
+                let p = s.proof(t, idx).unwrap(); let ix = s.rd_pay(e, &node, amt, &p); s.op(tx(vec![ix])).await;
+            }
+            let rt = s.def_tree(1, vec![Leaf::Reward { contributor: g.svcs[0].clone(), unit_share: 1_000_000_000, packed: 0 }]);
+            let ix = s.rd_configure_rewards(&g.rew_acc, e0, 1, rt.root); s.op(tx(vec![ix])).await;
+            let ix = s.rd_finalize_rewards(&g.payer, e0); s.op(tx(vec![ix])).await;
+            let ix = s.sw_buy(&g.fills, &K::Ata(b(&g.buyer), b(&K::Mint)), &g.buyer, &g.users[8], 123_456, a + bq); s.op(tx(vec![ix])).await;
+            let ix = s.rd_sweep(e0, &K::SwapMock, &g.fills); s.op(tx(vec![ix])).await;
+            let p = s.proof(&t0, 1).unwrap();
+            let ix = s.rd_write_off(&g.debt_acc, e0, &g.nodes[6].clone(), e0, bq, &p); s.op(tx(vec![ix])).await;     // target already swept: refused
+            let ix = s.rd_write_off(&g.debt_acc, e0, &g.nodes[6].clone(), e1, bq, &p); s.op(tx(vec![ix])).await;     // later epoch: allowed
+            let ix = s.rd_write_off(&g.debt_acc, e0, &g.nodes[6].clone(), e1, bq, &p); s.op(tx(vec![ix])).await;     // replay: refused
+        }
+        5 => { // C01 / C02: leaves at the byte boundaries of the bitmaps (7, 8, 15, 16): settle, then the same leaf again
+            let e = open_epoch(&mut s, &mut g).await;
+            let leaves: Vec<Leaf> = (0..17).map(|i| Leaf::Debt { node: g.nodes[i % 6].clone(), amount: 1_000 + i as u64 }).collect();
+            let total: u64 = (0..17).map(|i| 1_000 + i as u64).sum();
+            let t = s.def_tree(0, leaves.clone());
+            let ix = s.rd_configure_debt(&g.debt_acc, e, 17, total, t.root); s.op(tx(vec![ix])).await;
+            let ix = s.rd_finalize_debt(&g.debt_acc, e, &g.payer); s.op(tx(vec![ix])).await;
+            for idx in [7u32, 8, 15, 16, 0, 6, 9] {
+                let Leaf::Debt { node, amount } = leaves[idx as usize].clone() else { unreachable!() };
+                s.op(Op::Airdrop(K::RdDeposit(b(&node)), 2 * amount)).await;
+                let p = s.proof(&t, idx).unwrap();
+                let ix = s.rd_pay(e, &node, amount, &p); s.op(tx(vec![ix.clone()])).await; s.op(tx(vec![ix])).await;
+            }
+            for idx in (0..17u32).filter(|i| ![7u32, 8, 15, 16, 0, 6, 9].contains(i)) {
+                let Leaf::Debt { node, amount } = leaves[idx as usize].clone() else { unreachable!() };
+                s.op(Op::Airdrop(K::RdDeposit(b(&node)), amount)).await;
+                let p = s.proof(&t, idx).unwrap(); let ix = s.rd_pay(e, &node, amount, &p); s.op(tx(vec![ix])).await;
+            }
+            let shares = [62_500_000u32; 16];
+            let rl: Vec<Leaf> = (0..16).map(|i| Leaf::Reward { contributor: g.svcs[i % g.svcs.len()].clone(), unit_share: shares[i], packed: 0 }).collect();
+            let rt = s.def_tree(1, rl.clone());
+            let ix = s.rd_configure_rewards(&g.rew_acc, e, 16, rt.root); s.op(tx(vec![ix])).await;
+            let _ = open_epoch(&mut s, &mut g).await;
+            let ix = s.rd_finalize_rewards(&g.payer, e); s.op(tx(vec![ix])).await;
+            let ix = s.sw_buy(&g.fills, &K::Ata(b(&g.buyer), b(&K::Mint)), &g.buyer, &g.users[8], 16_000_000, total); s.op(tx(vec![ix])).await;
+            let ix = s.rd_sweep(e, &K::SwapMock, &g.fills); s.op(tx(vec![ix])).await;
+            for idx in [7u32, 8, 15, 0] {
+                let Leaf::Reward { contributor, unit_share, packed } = rl[idx as usize].clone() else { unreachable!() };
+                let ci = g.svcs.iter().position(|x| *x == contributor).unwrap();
+                let recs: Vec<K> = g.recips[ci].iter().map(|x| x.0.clone()).collect();
+                for (r, _) in g.recips[ci].clone() { s.reg_ata(&r); s.op(Op::CreateAta { payer: g.payer.clone(), owner: r }).await; }
+                let p = s.proof(&rt, idx).unwrap();
+                let ix = s.rd_distribute(e, &contributor, &g.relayer, &recs, unit_share, packed, &p); s.op(tx(vec![ix.clone()])).await; s.op(tx(vec![ix])).await;
+            }
+        }
+        6 => { // C15 / C04: grace periods whose second count exceeds 16 bits: creation pacing and the calculation gate at the boundaries
+            for st in [RdSetting::InitGrace(2880), RdSetting::CalcGrace(1440)] { let ix = s.rd_configure(&g.admin, st); s.op(tx(vec![ix])).await; }
+            g.init_grace = 2880; g.calc_grace = 1440;
+            g.clock += 172_800; s.op(Op::SetClock(g.clock)).await;
+            let ix = s.rd_initialize_distribution(&g.debt_acc, &g.payer, 0); s.op(tx(vec![ix])).await;
+            let t0 = g.clock;
+            let t = s.def_tree(0, vec![Leaf::Debt { node: g.nodes[0].clone(), amount: 9 }]);
+            for dt in [65_535u64, 65_536, 86_399, 86_400] {
+                s.op(Op::SetClock(t0 + dt)).await;
+                let ix = s.rd_configure_debt(&g.debt_acc, 0, 1, 9, t.root); s.op(tx(vec![ix])).await;
+                let ix = s.rd_initialize_distribution(&g.debt_acc, &g.payer, 1); s.op(tx(vec![ix])).await;
+            }
+            for dt in [131_071u64, 172_799, 172_800] {
+                s.op(Op::SetClock(t0 + dt)).await;
+                let ix = s.rd_initialize_distribution(&g.debt_acc, &g.payer, 1); s.op(tx(vec![ix])).await;
+            }
+        }
+        3 | _ => { // C05: malformed replies (no return data, wrong length, wrong SOL amount, honest amount)
             let rogue = K::Rogue(2);
             let ix = s.rd_configure(&g.admin, RdSetting::SwapProgram(rogue.clone())); s.op(tx(vec![ix])).await;
             let e = open_epoch(&mut s, &mut g).await;
@@ -111,5 +190,21 @@ async fn run(mut s: Sim, mut rng: Rng, _len: usize) -> Sim {
             }
         }
     }
+    s
+}
+
+/// C15: creation is refused while any of the five parameters it snapshots or paces by is still unconfigured
+/// (scripts 7..11 leave out init grace / calc grace / fee parameters / burn rate / relay fee), and accepted once it is set.
+async fn unconfigured(mut s: Sim, mut rng: Rng, which: u64) -> Sim {
+    let (skip, fix) = match which {
+        7 => (6usize, RdSetting::InitGrace(2)), 8 => (5, RdSetting::CalcGrace(2)), 9 => (4, RdSetting::FeeParams(1, 2, 3, 4, 5)),
+        10 => (7, RdSetting::BurnRate(500_000_000, 1, 2, Some(100_000_000))), _ => (8, RdSetting::RelayLamports(5001)) };
+    let mut g = bootstrap_with(&mut s, &mut rng, Some(skip)).await;
+    let ix = s.rd_configure(&g.admin, RdSetting::Paused(false)); s.op(tx(vec![ix])).await;
+    g.clock += 400; s.op(Op::SetClock(g.clock)).await;
+    let ix = s.rd_initialize_distribution(&g.debt_acc, &g.payer, 0); s.op(tx(vec![ix])).await;      // refused: one parameter missing
+    let ix = s.rd_configure(&g.admin, fix); s.op(tx(vec![ix])).await;
+    g.clock += 400; s.op(Op::SetClock(g.clock)).await;
+    let ix = s.rd_initialize_distribution(&g.debt_acc, &g.payer, 0); s.op(tx(vec![ix])).await;      // accepted
     s
 }
